@@ -183,7 +183,32 @@ def impl_scan(s, info_only=False, continue_on_error=False, filter_expr=None, ign
                 outcome = 'limit'
     except Exception as e:  # noqa
         outcome = core.err_tag(e)
+        LAST_EXC.clear()
+        LAST_EXC.update(exc_detail(e))
     return items, outcome
+
+
+LAST_EXC = {}
+
+
+def exc_detail(e):
+    """class of the exception and the innermost pybufrkit frame it was raised in (structural, no messages)"""
+    import traceback
+    name = type(e).__name__
+    if isinstance(e, RuntimeError) and isinstance(e.__cause__, StopIteration):
+        e = e.__cause__             # a StopIteration that reached the generator boundary
+        name = 'StopIteration'
+    where = None
+    for fr in traceback.extract_tb(e.__traceback__):
+        if os.sep + 'pybufrkit' + os.sep in fr.filename:
+            where = '%s:%s' % (os.path.basename(fr.filename)[:-3], fr.name)
+    if where in ('decoder:process_section', 'decoder:process') or (where or '').startswith('bufr:'):
+        layer = 'sections'
+    elif where and where.startswith('decoder:generate_bufr_message'):
+        layer = 'scan'
+    else:
+        layer = 'template-walk'
+    return {'exc': name, 'where': where, 'layer': layer}
 
 
 def scan_req(s, info_only=False, continue_on_error=False, model_filter=None, ignore_expect=False):
